@@ -305,6 +305,26 @@ func (p *prover) valFacts(v ssa.Value) {
 			}
 		}
 	case *ssa.Call:
+		// a find-index helper: NOTFOUND <= v <= len(p.F) - 1 for every load of that slice field that is stable since the call
+		if p.c != nil {
+			if fi := p.c.FindIndexOf(x.Call.StaticCallee()); fi != nil && fi.sliceArg < len(x.Call.Args) {
+				p.g.le("0", k, -fi.notFound) // notFound - v <= 0
+				want := baseKey(x.Call.Args[fi.sliceArg]) + "." + fi.slice
+				for i := range p.loads {
+					hl := &p.loads[i]
+					if hl.val == nil || hl.path != want {
+						continue
+					}
+					if p.c.stableBetween(x, hl.in, hl.field) {
+						if !p.seenL[hl.val] {
+							p.seenL[hl.val] = true
+							p.g.le("0", lenKey(hl.val), 0)
+						}
+						p.g.le(k, lenKey(hl.val), -1) // v <= len - 1
+					}
+				}
+			}
+		}
 		name := CalleeName(x)
 		switch {
 		case name == "(*Havoc/pkg/common/parser.Parser).ParseInt32":
